@@ -60,7 +60,7 @@ def clamp_range(facts, conv_path):
             x = float_sym(st, 'x', *rng)
         st2 = it.start(conv_path, [x], state=st)
         outs = it.run(st2)
-        for o in outs:
+        for o in sem_iter(outs):
             if o.status != 'returned' or not isinstance(o.ret, StructV):
                 raise InterpError('conversion %s does not return a value on partition %s (%s)' % (conv_path, part, o.panic_info))
             t = o.ret.fields[0].term
@@ -170,13 +170,13 @@ def check_bits(res, facts, owners, which=('index', 'fraction', 'ramp')):
         inst = '%s<%d,%d>' % (owner.split('::')[-1], total, index)
         outs, _ = call_pa(dds, it, st, 'index', copy.deepcopy(pa), [], total, index) if 'index' in which else ([], None)
         res.absorb(it)
-        for o in outs:
+        for o in sem_iter(outs):
             ok = o.status == 'returned' and isinstance(o.ret, Num) and o.ret.term == I
             res.ob('R-BITS', inst + ' index()', ok, 'index() = %r for acc = I*2^%d + L; expected I (the top %d bits)' % (o.ret, f, index),
                    where_of(facts, PAF + 'index'), key='R-BITS:index:' + inst)
             n += 1
         outs, _ = call_pa(dds, it, State_like(st), 'fraction', copy.deepcopy(pa), [], total, index) if ('fraction' in which or 'fraction_range' in which) else ([], None)
-        for o in outs:
+        for o in sem_iter(outs):
             if 'fraction' not in which:
                 lo, hi = o.ctx.rng(o.ret.term) if o.status == 'returned' and isinstance(o.ret, Num) else (-INF, INF)
                 res.ob('R-BITS', inst + ' fraction() in [0,1]', lo >= 0 and hi <= 1, 'fraction() = %r in [%s,%s]' % (o.ret, lo, hi),
@@ -189,7 +189,7 @@ def check_bits(res, facts, owners, which=('index', 'fraction', 'ramp')):
                    where_of(facts, PAF + 'fraction'), key='R-BITS:fraction:' + inst)
             n += 1
         outs, _ = call_pa(dds, it, State_like(st), 'ramp', copy.deepcopy(pa), [], total, index) if 'ramp' in which else ([], None)
-        for o in outs:
+        for o in sem_iter(outs):
             exp = (I.scale(1 << f) + L).scale(Fr(1, 1 << total))
             ok = o.status == 'returned' and isinstance(o.ret, Num) and o.ret.term == exp
             res.ob('R-BITS', inst + ' ramp()', ok, 'ramp() = %r; expected acc/2^%d' % (o.ret, total),
@@ -326,7 +326,7 @@ def check_calc_value(res, facts, prop):
             sd = lin(tbl(T_DECAY, Ic), tbl(T_DECAY, nxt), F)
             spec = {'AtRest': ZERO, 'Attack': (ONE - von) * sa + von, 'Decay': (ONE - s) * sd + s, 'Sustain': s, 'Release': voff * sd}[state]
             inst = '%s|%s' % (state, part)
-            for o in outs:
+            for o in sem_iter(outs):
                 n += 1
                 if o.status != 'returned' or not isinstance(o.ret, Num):
                     res.ob('R-INTERP', inst, False, 'path ends with %s: %s' % (o.status, o.panic_info), where, key='R-INTERP:' + inst)
@@ -382,7 +382,7 @@ def blend_endpoints(res, facts, dds, total, index, n_tab):
             a = dds.make_adsr(it, st, state, total, index, acc=Poly.const(acc))
             outs, cell = run_method(it, st, ADSR + '::calc_value', a, [])
             res.absorb(it)
-            for o in outs:
+            for o in sem_iter(outs):
                 got = table_value_subst(o.ret.term, facts.tables) if o.status == 'returned' and isinstance(o.ret, Num) else None
                 res.ob('R-BLEND', '%s|%s level' % (state, pos), got == e, 'value at phase %s of %s = %r, expected %r' % (pos, state, got, e), where, key='R-BLEND:%s:%s' % (state, pos))
     # direction of travel: the sample coefficient is >= 0 on the invariant box
@@ -423,7 +423,7 @@ def check_gates(res, facts, prop):
             outs, cell = run_method(it, st, ADSR + '::' + meth, a, [])
             res.absorb(it)
             inst = '%s|%s' % (meth, state)
-            for o in outs:
+            for o in sem_iter(outs):
                 n += 1
                 if o.status != 'returned':
                     res.ob('R-FSM', inst, False, 'path ends with %s: %s' % (o.status, o.panic_info), where, key='R-FSM:' + inst)
@@ -481,7 +481,7 @@ def check_tick(res, facts, prop):
         if state in TIME_FIELD:
             res.ob('R-FSM', inst0 + '|both outcomes', len([o for o in outs if o.status == 'returned']) >= 2,
                    'a timed phase must have a staying and an advancing outcome, found %d' % len(outs), where, key='R-FSM:%s:outcomes' % inst0)
-        for o in outs:
+        for o in sem_iter(outs):
             n += 1
             if o.status != 'returned':
                 res.ob('R-FSM', inst0, False, 'path ends with %s: %s' % (o.status, o.panic_info), where, key='R-FSM:' + inst0)
@@ -492,13 +492,15 @@ def check_tick(res, facts, prop):
             ch = spec_changed(pre, post)
             # value' = calc_value(post-state) on every path (R-LATCH)
             if prop in ('C03', 'C01'):
-                it2 = dds.interp()
-                st2 = State()
-                st2.ctx = o.ctx.copy()
-                outs2, c2 = run_method(it2, st2, ADSR + '::calc_value', copy.deepcopy(post), [])
+                with structural():
+                    it2 = dds.interp()
+                    st2 = State()
+                    st2.ctx = o.ctx.copy()
+                    outs2, c2 = run_method(it2, st2, ADSR + '::calc_value', copy.deepcopy(post), [])
                 exp_vals = [x.ret.term for x in outs2 if x.status == 'returned' and isinstance(x.ret, Num)]
                 got = post.get('value')
-                res.ob('R-LATCH', inst0 + '->%s|value recomputed' % s1, isinstance(got, Num) and len(exp_vals) == 1 and got.term == exp_vals[0],
+                # every feasible recomputation outcome must agree with the stored value (paths split on the same guards)
+                res.ob('R-LATCH', inst0 + '->%s|value recomputed' % s1, isinstance(got, Num) and len(exp_vals) >= 1 and all(got.term == e for e in exp_vals),
                        'value after tick = %r; expected calc_value(post-state) = %r' % (got, exp_vals), where, key='R-LATCH:%s->%s' % (inst0, s1))
             if prop != 'C02':
                 continue
@@ -554,7 +556,7 @@ def check_set_input(res, facts):
         inp = make_enum(facts, 'synth_utils::adsr::Input', vname, [inner])
         outs, cell = run_method(it, st, ADSR + '::set_input', a, [inp])
         res.absorb(it)
-        for o in outs:
+        for o in sem_iter(outs):
             post = o.cells[cell]
             ch = spec_changed(pre, post)
             ok = o.status == 'returned' and set(ch) <= {field + '.0'} and same(post.get(field), inner)
@@ -575,7 +577,7 @@ def check_pa_methods(res, facts, owner, prop):
     st = State()
     fs = float_sym(st, 'fs', FS_MIN, FS_MAX)
     st2 = it.start(PAF + 'new', [fs], genv=dds.genv(total, index), state=st)
-    for o in it.run(st2):
+    for o in sem_iter(it.run(st2)):
         r = o.ret
         ok = o.status == 'returned' and isinstance(r, StructV) and r.get('rollover_mask').term == Poly.const(mask) and r.get('accumulator').term == ZERO \
             and r.get('increment').term == ZERO and bool_of(o.ctx, r.get('rolled_over')) is False and r.get('sample_rate_hz').term == fs.term
@@ -590,7 +592,7 @@ def check_pa_methods(res, facts, owner, prop):
     outs, cell = call_pa(dds, it, st, 'tick', pa, [], total, index)
     res.absorb(it)
     acc0, inc0 = pre.get('accumulator').term, pre.get('increment').term
-    for o in outs:
+    for o in sem_iter(outs):
         n += 1
         post = o.cells[cell]
         got = post.get('accumulator').term if o.status == 'returned' else None
@@ -612,7 +614,7 @@ def check_pa_methods(res, facts, owner, prop):
     pa = dds.make_pa(it, st, total, index, rolled=None)
     pre = copy.deepcopy(pa)
     outs, cell = call_pa(dds, it, st, 'reset', pa, [], total, index)
-    for o in outs:
+    for o in sem_iter(outs):
         n += 1
         post = o.cells[cell]
         ch = set(changed_fields(pre, post))
@@ -630,7 +632,7 @@ def check_pa_methods(res, facts, owner, prop):
         outs, cell = call_pa(dds, it, st, 'set_phase', pa, [p], total, index)
         res.absorb(it)
         absp = p.term if part == 'p>=0' else -p.term
-        for o in outs:
+        for o in sem_iter(outs):
             n += 1
             post = o.cells[cell]
             got = post.get('accumulator').term if o.status == 'returned' else None
@@ -651,7 +653,7 @@ def check_pa_methods(res, facts, owner, prop):
     st.ctx.assume(cmp_term('Le', f.term, fsym))
     outs, cell = call_pa(dds, it, st, 'set_frequency', pa, [f], total, index)
     res.absorb(it)
-    for o in outs:
+    for o in sem_iter(outs):
         n += 1
         post = o.cells[cell]
         ch = set(changed_fields(pre, post))
@@ -716,7 +718,7 @@ def check_waves(res, facts, prop):
             outs, cell = run_method(it, st, LFO + '::get', l, [make_enum(facts, WAVE, shape)])
             res.absorb(it)
             inst = '%s|%s' % (shape, part)
-            for o in outs:
+            for o in sem_iter(outs):
                 n += 1
                 if o.status != 'returned' or not isinstance(o.ret, Num):
                     res.ob('R-WAVE', inst, False, 'path ends with %s: %s' % (o.status, o.panic_info), where, key='R-WAVE:' + inst)
